@@ -322,6 +322,8 @@ class Builder:
                 if last and not st["semi"]:
                     inv = self._invocation(e, env, allow_try=False)
                     if inv is not None:
+                        if inv.get("t") == "ref" and e["k"] == "call":
+                            self._infer_targs(inv, fn, tsubst)
                         tail = inv
                         continue
                     if e["k"] == "call" and e["f"]["k"] == "path" and e["f"]["segs"] == ["Ok"] and len(e["args"]) == 1:
@@ -383,6 +385,32 @@ class Builder:
                     key, ts = r
                     return N("ref", e, fn=key, targs=ts, extra=e["args"][1:])
         return None
+
+    def _infer_targs(self, ref, caller, tsubst):
+        """`helper(input)` in tail position with the helper's type parameters left to inference: they are fixed by the
+        caller's return type (PResult<T> against PResult<u32>)."""
+        callee = self.facts.fns.get(ref["fn"])
+        if callee is None:
+            return
+        gens = re.findall(r"([A-Za-z_][A-Za-z0-9_]*)\s*(?::|,|>)", callee.node.get("generics") or "")
+        missing = [g_ for g_ in gens if g_ not in (ref.get("targs") or {}) and not g_.startswith("'")]
+        if not missing:
+            return
+        want = F.norm_ty(caller.node["output"])
+        for k_, v_ in (tsubst or {}).items():
+            want = re.sub(r"\b%s\b" % re.escape(k_), v_, want)
+        if caller.impl is not None:
+            want = re.sub(r"\bSelf\b", F.norm_ty(caller.impl["self_ty"]), want)
+        have = F.norm_ty(callee.node["output"])
+        # unify: the callee's output with each missing parameter as a hole
+        pat = re.escape(have)
+        names = []
+        for g_ in missing:
+            if re.search(r"\b%s\b" % g_, have):
+                pat = re.sub(r"\b%s\b" % g_, lambda m_, g_=g_: "(?P<%s>[A-Za-z0-9_:<>,&']+)" % g_ if g_ not in names and not names.append(g_) else "(?P=%s)" % g_, pat)
+        m_ = re.fullmatch(pat, want)
+        if m_:
+            ref["targs"] = dict(ref.get("targs") or {}, **m_.groupdict())
 
     def _is_input(self, a, env):
         a = strip_refs(a)
@@ -744,6 +772,15 @@ class Builder:
             return N("trymap", e, p=self.pe(recv, env), f=args[0])
         if m == "verify" and len(args) == 1:
             return N("verify", e, p=self.pe(recv, env), f=args[0])
+        if m == "verify_map" and len(args) == 1:
+            # map + verify in one: succeeds where f yields Some, with that value
+            p = self.pe(recv, env)
+            one = p["t"] == "any" or (p["t"] == "set" and p.get("one"))
+            if one:
+                cs = self._some_set(args[0], env, p)
+                if cs is not None:
+                    return N("set", e, cs=cs, min=1, max=1, one=True, vmap=args[0], vmod=tuple(env["__module"]))
+            return N("verify", e, p=p, f=args[0], vmap=True)
         if m == "and_then" and len(args) == 1:
             return N("andthen", e, outer=self.pe(recv, env), inner=self.pe(args[0], env))
         if m == "fold" and len(args) == 2:
@@ -755,6 +792,50 @@ class Builder:
         if m == "by_ref" and not args:
             return self.pe(recv, env)
         return N("opaque", e, src=src(e), why="unmodelled method ." + m)
+
+    def _some_set(self, f, env, p):
+        """The characters on which a char -> Option<_> function yields Some.  The function is evaluated (vlib/probe.py) on
+        every character it or its helpers mention and on fresh representatives of every other kind of character; it is a
+        finite set exactly when every fresh representative is refused."""
+        from . import probe as P
+
+        pr = P.Probe(self.facts, None, tuple(env["__module"]))
+        try:
+            fv = pr.ev(f, {})
+        except P.NoEval:
+            return None
+        mentioned = set()
+
+        def lits(node, seen):
+            for n_ in F.find_all(node, lambda n_: n_.get("k") == "lit" and n_.get("t") in ("char", "str")):
+                mentioned.update(n_["v"])
+            for n_ in F.find_all(node, lambda n_: n_.get("k") in ("call", "path")):
+                segs = (n_["f"]["segs"] if n_["k"] == "call" and n_["f"].get("k") == "path" else n_.get("segs")) or []
+                fn = pr.find_fn(segs) if segs else None
+                if fn is not None and fn.key not in seen:
+                    seen.add(fn.key)
+                    lits(fn.body, seen)
+
+        lits(f, set())
+        fresh = [c_ for c_ in "qQ7 _~\t\u00e9\u20ac" if c_ not in mentioned]
+        base = p["cs"] if p["t"] == "set" else cs_notin([])
+        acc, rej = [], []
+        try:
+            for c_ in sorted(mentioned) + fresh:
+                if not cs_has(base, c_):
+                    continue
+                r = pr.apply(fv, [c_])
+                if r is None:
+                    rej.append(c_)
+                elif isinstance(r, tuple) and r and r[0] == "some":
+                    acc.append(c_)
+                else:
+                    return None
+        except (P.NoEval, KeyError):
+            return None
+        if all(c_ in rej for c_ in fresh if cs_has(base, c_)):
+            return cs_in(acc)
+        return None
 
     # ---------------------------------------------------------- predicates
     def pred(self, a, env):
